@@ -117,6 +117,51 @@ def build(run):
         for pn_, fn_ in (("renumber_indices", renumber_indices), ("expand_indices", expand_indices), ("remove_component_tensors", remove_component_tensors)):
             pass_ob(pn_, fn_, nm_, zero_two_dims(fs_, zf_, bf_))
 
+    # ---- coefficients in a SYMMETRIC tensor space: expand_indices replaces every component by the canonical component that carries the same degree of freedom
+    # (the spec gives one value per degree of freedom, so any non-equivalent component changes the value)
+    def sym_world():
+        from ufv.terms import atoms_hook as _ah
+
+        def hook(w, e, comp, env):
+            if isinstance(e, C.Coefficient) and len(getattr(e.ufl_function_space(), "components", {})) > 1 and comp:
+                return w.symbol(f"w{e.count()}", (e.ufl_function_space().components[tuple(comp)],))
+            return _ah(w, e, comp, env)
+
+        def mk_(symbolic, valuation):
+            from ufv.den import World
+            w = World(symbolic=symbolic, complex_mode=False, valuation=valuation)
+            w.terminal_hook = hook
+            return w
+        return mk_
+
+    def sym_cases():
+        import ufl
+        from ufv import elements as E_
+        t = corpus.terminals()
+        cell = t["msh"].ufl_cell()
+        P1 = E_.LagrangeElement(cell, 1)
+        S2 = ufl.Coefficient(ufl.FunctionSpace(t["msh"], E_.SymmetricElement({(0, 0): 0, (0, 1): 1, (1, 0): 1, (1, 1): 2}, [P1, P1, P1])))
+        S3 = ufl.Coefficient(ufl.FunctionSpace(t["msh"], E_.SymmetricElement(
+            {(0, 0): 0, (0, 1): 1, (0, 2): 2, (1, 0): 1, (1, 1): 3, (1, 2): 4, (2, 0): 2, (2, 1): 4, (2, 2): 5}, [P1] * 6)))
+        A_, u_, f_ = t["A"], t["u"], t["f"]
+        i_, j_, k_ = Index(), Index(), Index()
+        return {"S[1,1]": S2[1, 1], "S[1,0] f": S2[1, 0] * f_, "tr S = S[i,i]": S2[i_, i_], "S[i,j] A[j,i]": S2[i_, j_] * A_[j_, i_], "S[i,j] S[i,j]": S2[i_, j_] * S2[i_, j_],
+                "(S A)[1,1]": ufl.as_tensor(S2[i_, k_] * A_[k_, j_], (i_, j_))[1, 1], "S[i,0] u[i]": S2[i_, 0] * u_[i_], "S3[i,i]": S3[i_, i_], "S3[2,1] + S3[1,2]": S3[2, 1] + S3[1, 2],
+                "S3[i,j] S3[j,i]": S3[i_, j_] * S3[j_, i_], "S3[2,2] S3[0,2]": S3[2, 2] * S3[0, 2]}
+    for nm_ in sym_cases():
+        for pn_, fn_ in (("expand_indices", expand_indices), ("remove_component_tensors", remove_component_tensors)):
+            def sym_thunk(nm_=nm_, fn_=fn_, pn_=pn_):
+                e = sym_cases()[nm_]
+                try:
+                    r = fn_(e)
+                except ValueError as ex:
+                    if not deliberate(ex):
+                        return violated(f"crash instead of a result or a refusal: {crash_text(ex)}", reproduced=True, backend="exec")
+                    return proved("refused", sample=f"{pn_}/{nm_}: raises ValueError: {ex}"[:200])
+                return check_same(sym_world(), r, lambda w, c, env: den(w, e, c, env), e.ufl_shape, e.ufl_free_indices, e.ufl_index_dimensions, timeout_ms=tmo,
+                                  what=f"{pn_}/symmetric coefficient/{nm_}")
+            run.add(f"{pn_}/symmetric-space coefficient/{nm_}", sym_thunk, kind="values")
+
     # ---- per-handler: IndexReplacer.zero (opaque bodies cannot be substituted into, so only Zero bodies are used here)
     I, J, K = Index(), Index(), Index()
     cases = [
